@@ -99,5 +99,30 @@ for f in $list; do
   else echo "MISS $name caught:'$caught' expect='$expect' tests=$tests_ok"; fail=$((fail+1)); fi
   (cd "$SCRATCH/repo" && patch -p1 -R --quiet < "$f" >/dev/null 2>&1) || { rm -rf "$SCRATCH/repo"; rsync -a --exclude target --exclude .git /repo/ "$SCRATCH/repo/"; }
 done
+# ---- negative controls: behaviour-preserving changes; NO check may raise an alarm
+cpass=0; cfail=0
+for f in "$HERE"/controls/*.diff; do
+  [ -e "$f" ] || continue
+  case "$f" in *"$PATTERN"*) ;; *) continue ;; esac
+  name="controls/$(basename "$f" .diff)"
+  if ! (cd "$SCRATCH/repo" && patch -p1 --quiet < "$f" >/dev/null 2>&1); then
+    echo "FAIL $name: patch does not apply"; cfail=$((cfail+1))
+    rm -rf "$SCRATCH/repo"; rsync -a --exclude target --exclude .git /repo/ "$SCRATCH/repo/"; continue
+  fi
+  alarms=""
+  for p in C13 C14 C15 C16; do
+    run_check "$p"; code=$?
+    [ $code = 0 ] || alarms="$alarms $p(exit $code:$(grep -o 'clause=[a-z_0-9]*' "$SCRATCH/out" | sort -u | tr '\n' ' '))"
+  done
+  tests_ok="-"
+  if [ $WITH_TESTS = 1 ]; then
+    if (cd "$SCRATCH/repo" && CARGO_TARGET_DIR="$SCRATCH/ttarget" cargo test --workspace --offline --quiet >"$SCRATCH/tout" 2>&1); then tests_ok=pass; else tests_ok=FAIL; fi
+  fi
+  if [ -z "$alarms" ] && [ "$tests_ok" != FAIL ]; then echo "ok   $name quiet (no check alarms) tests=$tests_ok"; cpass=$((cpass+1));
+  else echo "FALSE-ALARM $name:$alarms tests=$tests_ok"; cfail=$((cfail+1)); fi
+  (cd "$SCRATCH/repo" && patch -p1 -R --quiet < "$f" >/dev/null 2>&1) || { rm -rf "$SCRATCH/repo"; rsync -a --exclude target --exclude .git /repo/ "$SCRATCH/repo/"; }
+done
+echo "controls: $cpass quiet, $cfail false alarms/failed"
+fail=$((fail+cfail))
 echo "selftest: $pass caught, $fail missed/failed"
 [ $fail = 0 ]
